@@ -100,7 +100,8 @@ def _null_var_defs(fr):
                 b = v.value
                 if (isinstance(b, ast.Attribute) and b.attr == "NULL") or (
                         isinstance(b, ast.Subscript) and isinstance(b.slice, ast.Constant) and b.slice.value == "NULL"):
-                    out.add(sub.targets[0].id)
+                    if not _is_temp(sub.targets[0].id):
+                        out.add(sub.targets[0].id)
     return out
 
 
@@ -611,8 +612,15 @@ def _wrap_var(fr):
                 b = v.value
                 if (isinstance(b, ast.Attribute) and b.attr == "WRAP") or (
                         isinstance(b, ast.Subscript) and isinstance(b.slice, ast.Constant) and b.slice.value == "WRAP"):
+                    if _is_temp(sub.targets[0].id):
+                        continue       # a temporary of an expanded helper: the value lives on in some other form (a record field ...)
                     return sub.targets[0].id
     return None
+
+
+def _is_temp(name):
+    import re as _re
+    return bool(_re.match(r"^(__ret_\w+|__lr\w*|\w+__[A-Za-z_]+\d+)$", name))
 
 
 def rule_wrap_count(ctx):
@@ -1249,7 +1257,7 @@ def rule_data_format(ctx):
             fmtf = fi
     if fmtf is None:
         raise AnalysisError("cannot find the data-cell formatter (isnan test) in lasio/writer.py")
-    n = fmtf.params()[0]
+    n = [x_ for x_ in fmtf.params() if not (fmtf.cls is not None and x_ in ("self", "cls"))][0]
     problems = []
     for sub in walk_shallow(fmtf.node):
         if isinstance(sub, (ast.Assign, ast.AugAssign)):
@@ -1287,6 +1295,15 @@ def rule_data_format(ctx):
             if isinstance(c_, ast.Call) and ast.unparse(c_.func).split(".")[-1] in ("savetxt", "tofile", "to_csv", "array2string", "writelines"):
                 problems.append("`%s` writes data rows without the cell formatter: NULL/NaN and the per-column formats are rendered "
                                 "differently on that path (e.g. the NULL marker through fmt instead of str(NULL))" % unparse(c_)[:60])
+    # the separator in front of a value is text of its own: the field is padded to the numeric width, and the spacer is
+    # concatenated in front - a width that is computed (`width + len(spacing)`) lets a wide value swallow its separator
+    for f_ in write_family(p):
+        for c_ in walk_shallow(f_.node):
+            if isinstance(c_, ast.Call) and isinstance(c_.func, ast.Attribute) and c_.func.attr in ("rjust", "ljust", "center") and c_.args \
+                    and isinstance(c_.args[0], ast.BinOp) and any(isinstance(x_, ast.Call) and isinstance(x_.func, ast.Name) and x_.func.id == "len"
+                                                                  for x_ in ast.walk(c_.args[0])):
+                problems.append("`%s` pads to a width computed from the length of another text: the spacer is no longer a separate "
+                                "separator, so a value wider than the numeric field is glued to the previous value" % unparse(c_)[:70])
     fmts = [b for b in walk_shallow(fmtf.node) if isinstance(b, ast.BinOp) and isinstance(b.op, ast.Mod)]
     if not any(isinstance(b.right, ast.Name) and b.right.id == n and isinstance(b.left, ast.Name) for b in fmts):
         problems.append("a finite sample is not written as `<fmt> % <sample>`")
@@ -1501,6 +1518,32 @@ def rule_engine_select(ctx):
                                 isinstance(x, ast.Constant) and x.value == "YES" for x in sides):
                             ok = True
             cur = getattr(cur, "_parent", None)
+    if not ok:
+        # the switch is there but not literally under `<wrap> == "YES"` (a boolean local, an inverted guard ...): decide by
+        # exploring read() for a WRAP YES file under the default options - the fast engine's call must be unreachable
+        from sa.explore import tv
+        r_ = get_resolver(p)
+        cfg_ = build_cfg(p, fr)
+        fast = [n_.id for n_ in cfg_.nodes if n_.ast is not None and n_.kind in ("stmt", "test") and any(
+            isinstance(c_, ast.Call) and any(t_.qual == "reader.read_data_section_iterative_numpy_engine" for t_ in r_.callees(fr, c_)[0])
+            for c_ in walk_expr_shallow(n_.ast))]
+        consts0 = {k_: v_ for k_, v_ in (("engine", "numpy"), ("null_policy", "strict"), ("dtypes", "auto"),
+                                         ("use_normal_engine_for_wrapped", True), ("ignore_data", False)) if k_ in fr.params()}
+        assume = {"%s == 'YES'" % wv: True, "%s != 'YES'" % wv: False}
+        # boolean locals with one definition that folds under these assumptions
+        defs_ = {}
+        for a_ in walk_shallow(fr.node):
+            if isinstance(a_, ast.Assign) and len(a_.targets) == 1 and isinstance(a_.targets[0], ast.Name):
+                defs_.setdefault(a_.targets[0].id, []).append(a_.value)
+        for nm_, vs_ in defs_.items():
+            if len(vs_) == 1 and isinstance(vs_[0], (ast.BoolOp, ast.Compare, ast.UnaryOp)) and nm_ not in consts0:
+                v_ = tv(vs_[0], consts0, assume)
+                if v_ is not None:
+                    assume[nm_] = v_
+        if fast and len(consts0) >= 4:
+            seen_, prev_ = explore(cfg_, frozenset(), lambda node, consts, facts, lab: facts, assume=assume, init_consts=consts0)
+            reach = [nid for nid in fast if nid in seen_]
+            ok = not reach
     ctx.check(ok, "DATA.ENGINE-SELECT", site, fr, sets[0], "WRAP == YES forces the reference engine",
               "the switch to the reference engine no longer depends on `%s == \"YES\"`: a wrapped file whose physical lines all hold the "
               "same number of values is read by the fast engine with every line as a row (wrong curve lengths, extra curves)" % wv)
